@@ -158,6 +158,16 @@ func diffResponses(got, want *dns.Msg, wAns, wExtra bool) string {
 	return ""
 }
 
+func stripOPT(rrs []dns.RR) []dns.RR {
+	var out []dns.RR
+	for _, rr := range rrs {
+		if rr.Header().Rrtype != dns.TypeOPT {
+			out = append(out, rr)
+		}
+	}
+	return out
+}
+
 func drawC12(rt *rapid.T, tier string) SrvScenario {
 	o := srvDrawOpts{backends: []string{"cdb", "cdb", "cdb", "cdb", "cdb", "rdb1", "rdb2"}, maxClients: 4, maxQueries: 6, maxOps: 4,
 		faults: []string{"missing", "nokey", "inject"}, cache: true, jumps: true, ecs: true, badvers: true}
@@ -167,6 +177,15 @@ func drawC12(rt *rapid.T, tier string) SrvScenario {
 		o.maxOps = 6
 	}
 	sc := drawSrv(rt, o)
+	// let some clients wait past the lifetime of cache entries (1000 s; WRS timeout 5 s) so that
+	// expired entries are met
+	for ci := range sc.Clients {
+		for qi := range sc.Clients[ci] {
+			if qi > 0 && rapid.IntRange(0, 9).Draw(rt, "long_wait") == 0 {
+				sc.Clients[ci][qi].SleepMs = rapid.SampledFrom([]int{5500, 999000, 1001500}).Draw(rt, "long_wait_ms")
+			}
+		}
+	}
 	// concentrate the queries on few cache keys so that hits happen
 	focus := rapid.IntRange(0, 2).Draw(rt, "focus")
 	if focus > 0 {
@@ -230,6 +249,7 @@ func runC12(t *testing.T, sc SrvScenario, keep bool) *core.Result {
 		}
 	}
 	hits := 0
+	var excused []*QRec
 	for _, q := range h.Queries {
 		if q.Ret == 0 {
 			continue
@@ -285,6 +305,39 @@ func runC12(t *testing.T, sc SrvScenario, keep bool) *core.Result {
 			res.Add("weighted-answer-cached", "weighted-answer-cached", fmt.Sprintf("client %d query %d (%s): an answer subject to weighted selection was served from the cache although no WRS timeout is configured", q.Client, q.Idx, describeQ(q)))
 		}
 		if d := diffResponses(q.Resp, want, gen.Weighted(q.Q.Q), gen.WeightedExtra(q.Q.Q)); d != "" {
+			// RocksDB catches up in place: a query in flight across a catch-up can take its location
+			// from one generation and its records from the next (C05's known finding, not a matter
+			// of the cache). Such a response is excused here, and so is a later cache hit that
+			// serves exactly that response again.
+			if sc.Backend != "cdb" {
+				excuse := false
+				for _, cu := range h.Mon.CatchUps {
+					if q.Inv < cu.End && q.Ret > cu.Start {
+						excuse = true
+					}
+				}
+				if !excuse && q.Counters["DNS_cache.hit"] > 0 {
+					for _, e := range excused {
+						if e.Q.Q == q.Q.Q && e.Ret < q.Ret && diffResponses(q.Resp, e.Resp, false, false) == "" {
+							excuse = true
+						} else if e.Q.Q == q.Q.Q && e.Ret < q.Ret {
+							// same entry, other requester: compare the cached part only
+							a, b := q.Resp.Copy(), e.Resp.Copy()
+							a.Id, b.Id = 0, 0
+							a.Question, b.Question = nil, nil
+							a.Extra, b.Extra = stripOPT(a.Extra), stripOPT(b.Extra)
+							if diffResponses(a, b, false, false) == "" {
+								excuse = true
+							}
+						}
+					}
+				}
+				if excuse {
+					excused = append(excused, q)
+					res.Probe("c05_matter_ignored")
+					continue
+				}
+			}
 			via := "computed"
 			if q.Counters["DNS_cache.hit"] > 0 {
 				via = "cache-hit"
